@@ -376,6 +376,7 @@ func init() {
 			}
 			c.ruleRequires("E1b.requires", req, 6)
 			c.ruleWhoMayWrite()
+			c.ruleSortedInsertionOnly()
 			c.ruleUpdateCriticalSection()
 			c.ruleActiveDestinations()
 			c.ruleMacIndexHandles()
